@@ -325,22 +325,26 @@ Definition usize_checked (x : N) : option N := if x <? 18446744073709551616 then
 Definition font_create (conv : N -> option N) (h : N) (data : list N) : outcome font_result :=
   mk_font 256 (glyphs conv (N.to_nat h) data).
 
-(* load_psf1: data[2], data[3], &data[4..] (from_bytes has checked data.len() >= 4 before) *)
+(* load_psf1: data[2], data[3], &data[4..] (from_bytes has checked data.len() >= 4 before);
+   fix fB: `if charsize == 0 || charsize as usize > MAX_FONT_HEIGHT { return Err(..) }` *)
 Definition load_psf1 (conv : N -> option N) (data : list N) : outcome font_result :=
   match data with
   | _ :: _ :: mode :: charsize :: rest =>
+    if (charsize =? 0) || (MAX_FONT_HEIGHT <? charsize) then Rejected else
     mk_font (if N.land mode PSF1_MODE512 =? PSF1_MODE512 then 512 else 256) (glyphs conv (N.to_nat charsize) rest)
   | _ => Panic
   end.
 
-(* load_plain_font *)
+(* load_plain_font; fix fB: `data.len() % 256 != 0 || char_height == 0 || char_height > MAX_FONT_HEIGHT` is an error *)
 Definition load_plain (conv : N -> option N) (data : list N) : outcome font_result :=
   let n := N.of_nat (length data) in
-  if negb (n mod 256 =? 0) then Rejected else mk_font 256 (glyphs conv (N.to_nat (n / 256)) data).
+  if negb (n mod 256 =? 0) || (n / 256 =? 0) || (MAX_FONT_HEIGHT <? n / 256) then Rejected
+  else mk_font 256 (glyphs conv (N.to_nat (n / 256)) data).
 
 (* load_psf2: the header fields are sliced after the `data.len() < 32` test ([byte_at] below is in range);
    length * charsize + headersize with checked arithmetic must be the file length and length <= MAX_GLYPHS;
-   the glyph rows are `height` bytes each (charsize only enters the length test) *)
+   the glyph rows are `height` bytes each; fix fB: width 1..=MAX_FONT_WIDTH, height 1..=MAX_FONT_HEIGHT and
+   charsize = height, else an error *)
 Definition load_psf2 (conv : N -> option N) (data : list N) : outcome font_result :=
   let n := N.of_nat (length data) in
   if n <? 32 then Rejected else
@@ -353,6 +357,10 @@ Definition load_psf2 (conv : N -> option N) (data : list N) : outcome font_resul
                   | None => None
                   end in
   if negb (match expected with Some e => e =? n | None => false end) || (MAX_GLYPHS <? length) then Rejected else
+  let height := le32_at data 24 in
+  let width := le32_at data 28 in
+  if (width =? 0) || (MAX_FONT_WIDTH <? width) || (height =? 0) || (MAX_FONT_HEIGHT <? height) then Rejected else
+  if negb (charsize =? height) then Rejected else
   match drop headersize data with
   | None => Panic
   | Some body => mk_font length (glyphs_n conv (le32_at data 24) body)
